@@ -311,6 +311,52 @@ example : sessionSerial ⟨none, none, none, false⟩ (chosenProfile none ⟨.lo
     sessionConsistency ⟨some .all, none, none, false⟩ (chosenProfile (some ⟨.two, none⟩) ⟨.localQuorum, none⟩) = .all := by
   decide
 
+/-! ### Statement → PreparedStatement inheritance; `query_*` with values; `CachingSession` -/
+
+/-- **statement_config_inherited.** A request that goes PREPARE → EXECUTE from a configured *statement*
+(`Session::query_*` with values, `Session::prepare(stmt)` + `execute_*`, `CachingSession::execute_*`, cache miss or hit)
+sends: a PREPARE of the statement's text whose tracing flag is the statement's; then one EXECUTE per page, each exactly
+the EXECUTE a handle configured with the *statement's* consistency, serial consistency, timestamp, execution profile and
+page size would send (so `session_execute_glue` applies to it), with the statement's tracing flag. Nothing of the
+statement's configuration is lost on the way into the prepared handle. -/
+theorem statement_config_inherited (text : List UInt8) (server : PreparedInfo) (uc : Bool) (vals : List RawVal)
+    (cfg : StmtConfig) (sp : Option ExecProfile) (sd : ExecProfile) (conn : ConnCtx) (m : Paging) (sps : Int32)
+    (states : List (List UInt8)) :
+    sessionPreparedFromStatement text server uc vals cfg sp sd conn m sps states =
+      (.prepare text, cfg.tracing) ::
+      (sessionExecute { server with useCachedResultMetadata := uc } vals cfg sp sd conn m sps none, cfg.tracing) ::
+        states.map (fun s =>
+          (sessionExecute { server with useCachedResultMetadata := uc } vals cfg sp sd conn m sps (some s), cfg.tracing)) := by
+  simp [sessionPreparedFromStatement, intoPrepared, List.map_map, Function.comp_def]
+
+/-- **session_query_values_glue.** The EXECUTE frame of `query_*(statement, values)` reads back to the server's id for
+the statement text, the caller's values in order, and the *statement's* consistency / serial consistency (else the
+profile's), timestamp (else the generator's), page size per paging mode. -/
+theorem session_query_values_glue (k : Codec) (text : List UInt8) (server : PreparedInfo) (vals : List RawVal)
+    (cfg : StmtConfig) (sp : Option ExecProfile) (sd : ExecProfile) (conn : ConnCtx) (m : Paging) (sps : Int32)
+    (r : Req) (tr : Bool) (f : List UInt8)
+    (hr : (sessionPreparedFromStatement text server false vals cfg sp sd conn m sps [])[1]? = some (r, tr))
+    (h : encodeReq k r none tr = .ok f) (hlen : f.length - 9 < 2 ^ 32) :
+    tr = cfg.tracing ∧
+    parseReq conn.metadataIdExt f = some ⟨false, cfg.tracing, 0, .execute server.id
+      (cachedMetadataParams { server with useCachedResultMetadata := false } conn.metadataIdExt).2
+      { consistency := sessionConsistency cfg (chosenProfile sp sd)
+        skipMetadata := (cachedMetadataParams { server with useCachedResultMetadata := false } conn.metadataIdExt).1
+        values := vals
+        pageSize := (sessionPageSize m sps).map Int32.toInt
+        pagingState := none
+        serialConsistency := sessionSerial cfg (chosenProfile sp sd)
+        timestamp := (match cfg.timestamp with | some t => some t | none => conn.genTimestamp).map Int64.toInt }⟩ := by
+  rw [statement_config_inherited] at hr
+  simp only [List.getElem?_cons_succ, List.getElem?_cons_zero, Option.some.injEq, Prod.mk.injEq] at hr
+  obtain ⟨rfl, rfl⟩ := hr
+  refine ⟨rfl, ?_⟩
+  exact session_execute_glue k _ vals cfg sp sd conn m sps none f h hlen
+
+example : (sessionPreparedFromStatement [0x78] ⟨[9], 2, none, false⟩ true [.null] ⟨some .two, some none, some 5, true⟩ none
+    ⟨.localQuorum, some .localSerial⟩ ⟨.localQuorum, none, false⟩ .paged 100 [[1]]).map (fun x => x.2) = [true, true, true] := by
+  decide
+
 /-! ### STARTUP (`open_connection`) -/
 
 /-- The keys and fixed values the driver advertises are the protocol's (checked against the constants extracted from
